@@ -41,7 +41,8 @@ struct Monitor {
    std::vector<int> apiR, apiW;              // per thread: holds according to what the public calls RETURNED (no events involved)
    void D(const std::string & s) {if (drifts.size() < 3) drifts.push_back(s);}
    // does the public API agree that thread o may hold the lock right now?  (a thread inside a call may have taken / given up a hold already)
-   bool ApiMayHold(int o) const {return (apiR[o] > 0)||(apiW[o] > 0)||(curOp[o] != OP_NONE);}
+   bool ApiMayHoldRead(int o) const  {return (apiR[o] > 0)||((curOp[o] >= OP_LR)&&(curOp[o] <= OP_LRTIMED));}
+   bool ApiMayHoldWrite(int o) const {return (apiW[o] > 0)||((curOp[o] >= OP_LW)&&(curOp[o] <= OP_LWTIMED));}
    void Reset(int n, bool p) {nt = n; prefer = p; apiR.assign(n, 0); apiW.assign(n, 0); drifts.clear(); rd.assign(n, 0); wr.assign(n, 0); callStart.assign(n, 0); queuedWriters.clear(); curOp.assign(n, OP_NONE); expired.assign(n, false); rdAtStart.assign(n, 0); wrAtStart.assign(n, 0); seq = 0; violations.clear(); known.clear();}
    void V(const std::string & s) {if (violations.size() < 5) violations.push_back(s);}
    void OpBegin(int t, int op) {curOp[t] = op; expired[t] = false; rdAtStart[t] = rd[t]; wrAtStart[t] = wr[t]; callStart[t] = seq;}
@@ -76,12 +77,12 @@ struct Monitor {
       char b[200]; seq++;
       if ((t < 0)||(t >= nt)) return;
       if (n == "AcqR") {
-         for (int o=0; o<nt; o++) if ((o != t)&&(wr[o] > 0)) {snprintf(b, sizeof(b), "T%d acquired READ while T%d holds WRITE", t+1, o+1); if (ApiMayHold(o)) V(b); else D(std::string(b)+" according to the code's events only (T's calls have all returned and left it without a hold)");}
+         for (int o=0; o<nt; o++) if ((o != t)&&(wr[o] > 0)) {snprintf(b, sizeof(b), "T%d acquired READ while T%d holds WRITE", t+1, o+1); if (ApiMayHoldWrite(o)) V(b); else D(std::string(b)+" according to the code's events only (T's calls have all returned and left it without a hold)");}
          if ((prefer)&&(rd[t] == 0)&&(wr[t] == 0)) for (std::map<int,long>::iterator it = queuedWriters.begin(); it != queuedWriters.end(); ++it) if ((it->first != t)&&(it->second < callStart[t])) {snprintf(b, sizeof(b), "T%d acquired READ (call began at %ld) overtaking writer T%d waiting since %ld, with writer preference", t+1, callStart[t], it->first+1, it->second); V(b);}
          rd[t]++;
       }
       else if (n == "AcqW") {
-         for (int o=0; o<nt; o++) if (o != t) { if (wr[o] > 0) {snprintf(b, sizeof(b), "T%d acquired WRITE while T%d holds WRITE", t+1, o+1); if (ApiMayHold(o)) V(b); else D(std::string(b)+" according to the code's events only");} if (rd[o] > 0) {snprintf(b, sizeof(b), "T%d acquired WRITE while T%d holds READ", t+1, o+1); if (ApiMayHold(o)) V(b); else D(std::string(b)+" according to the code's events only");} }
+         for (int o=0; o<nt; o++) if (o != t) { if (wr[o] > 0) {snprintf(b, sizeof(b), "T%d acquired WRITE while T%d holds WRITE", t+1, o+1); if (ApiMayHoldWrite(o)) V(b); else D(std::string(b)+" according to the code's events only");} if (rd[o] > 0) {snprintf(b, sizeof(b), "T%d acquired WRITE while T%d holds READ", t+1, o+1); if (ApiMayHoldRead(o)) V(b); else D(std::string(b)+" according to the code's events only");} }
          wr[t]++; queuedWriters.erase(t);
       }
       else if (n == "RelR") { if (rd[t] <= 0) {snprintf(b, sizeof(b), "T%d's events release a READ hold that its events never took", t+1); D(b);} else rd[t]--; }
